@@ -827,6 +827,10 @@ fn arb_value_text() -> impl Strategy<Value = String> {
         Just("010".to_string()), Just("0x10".to_string()), Just("0X1f".to_string()), Just("08".to_string()),
         Just("".to_string()), Just("x".to_string()), Just("+5".to_string()), Just("-0".to_string()), Just(" 1".to_string()),
         Just("1 ".to_string()), Just("1+1".to_string()), Just("b".to_string()),
+        // just outside the representable range on either side, and far outside
+        Just("-9223372036854775809".to_string()), Just("-9223372036854775810".to_string()), Just("-18446744073709551615".to_string()),
+        Just("-18446744073709551616".to_string()), Just("18446744073709551615".to_string()), Just("18446744073709551616".to_string()),
+        any::<u64>().prop_map(|v| format!("-{v}")),
         any::<i64>().prop_map(|v| v.to_string()),
         (-100i64..100).prop_map(|v| v.to_string()),
     ]
@@ -948,9 +952,15 @@ pub fn run(ctx: &Ctx, st: &mut Stats) {
     CONST.run_list(st, &consts);
     let n = ctx.tier.pick(20_000, 500_000);
     CONST.run_random(ctx, st, n, || {
-        (any::<u64>(), 0u8..5, 0usize..16, 0u32..64).prop_map(move |(v, form, t, sh)| {
-            let v = (v >> sh) >> 1;
+        (any::<u64>(), 0u8..7, 0usize..16, 0u32..64).prop_map(move |(v, form, t, sh)| {
+            // forms 5 and 6 keep the top bit: magnitudes up to 2^64-1, negative and positive
+            let v = if form >= 5 { v >> (sh % 2) } else { (v >> sh) >> 1 };
+            // `x=-9223372036854775808` is a valid value while `-(9223372036854775808)` applies the
+            // minus to an unrepresentable constant: the one magnitude where the two readings differ
+            let v = if form == 5 && v == 1 << 63 { v + 1 } else { v };
             let text = match form {
+                5 => format!("-{v}"),
+                6 => format!("{v}"),
                 0 => format!("{v}"),
                 1 => format!("0{v:o}"),
                 2 => format!("0x{v:x}"),
